@@ -11,7 +11,7 @@ use std::collections::BTreeMap;
 use std::rc::Rc;
 
 /// (name, text, dependencies as pool indices)
-const POOL: [(&str, &str, &[usize]); 42] = [
+const POOL: [(&str, &str, &[usize]); 45] = [
     ("m", "?? the metre\nm !meter\n", &[]),
     ("kilo", "kilo- 1000\n", &[]),
     ("k", "k-- kilo\n", &[1]),
@@ -64,6 +64,10 @@ const POOL: [(&str, &str, &[usize]); 42] = [
     // a prefix defined by a name that is both a unit and a prefix, from a prefix that sorts first
     ("double", "double- 2\ndouble 2\n", &[]),
     ("dbl", "dbl-- double\n", &[40]),
+    // a long prefix is a unit of its own: used bare, from a name that sorts before everything else that uses it
+    ("a_kilo", "a_kilo 3 kilo\n", &[1]),
+    ("zop", "zop- 100000\n", &[]),
+    ("a_zop", "a_zop 3 zop\n", &[43]),
 ];
 
 fn pool_entries(i: usize) -> Vec<DefEntry> {
